@@ -133,7 +133,24 @@ def freeze(x, _depth=0):
     if isinstance(x, (set, frozenset)):
         return ('set', tuple(sorted((freeze(i, _depth + 1) for i in x),
                                     key=repr)))
-    return ('obj', type(x).__name__, repr(x))
+    # arbitrary objects (e.g. a per-iteration state object a refactoring
+    # introduced): freeze their attributes, never their repr() -- the
+    # default repr contains the memory address and would make every state
+    # distinct
+    d = {}
+    for klass in type(x).__mro__:
+        for name in getattr(klass, '__slots__', ()) or ():
+            if isinstance(name, str) and hasattr(x, name):
+                d[name] = getattr(x, name)
+    if hasattr(x, '__dict__'):
+        d.update(vars(x))
+    if d:
+        return ('obj', type(x).__name__, freeze(d, _depth + 1))
+    if isinstance(x, type) or callable(x):
+        return ('callable', getattr(x, '__qualname__', type(x).__name__))
+    import re as _re
+    return ('obj', type(x).__name__,
+            _re.sub(r' at 0x[0-9a-fA-F]+', '', repr(x)))
 
 
 def bfs(initial, successors, step, depth, on_transition=None):
